@@ -317,6 +317,28 @@ CHECKS["C07"] = dict(
     technique="two-phase TLA+ spec with an in-spec witness continuation (state invariant) + liveness under fairness; "
               "continuations and a driver-side continuation search replayed on real controllers",
 )
+CHECKS["C10"] = dict(
+    category="model_checking",
+    text="QBFTTimely.tla restricts QBFT.tla to executions that respect the timing assumptions (global round clock; every "
+         "message is delivered before the round's deadline; at the deadline the timers of all undecided operators become "
+         "due and fire in any order interleaved with deliveries; <= f silent members; optionally a faulty but timely member) "
+         "and states the reject-class rules of the gossip gate as conditions on what correct operators emit: proposals "
+         "are stamped with a round their signer leads, per signer and round all attached full data agree (also across "
+         "the members of a decided certificate), proposals carry a justification the gate's IsProposalJustification "
+         "accepts. TLC checks NoHonestReject exhaustively for a silent member / silent leader in every rotation (<= 4 "
+         "rounds; fault-free and faulty-but-timely classes in thorough). Timely behaviours of all five roles are replayed "
+         "on real controllers, and EVERY broadcast of a correct operator (incl. the aggregated decided messages of "
+         "Controller.broadcastDecided) is handed to the real messageValidator of every other correct peer at a virtual "
+         "time inside the round of its emission (three positions inside the round, re-based-genesis clock): class reject "
+         "is a violation, in fault-free in-order runs anything but accept is.",
+    design_ref="DESIGN.md section 5 C10",
+    note="Committee 4; consensus messages and aggregated decided messages (partial-signature messages of the duty runners "
+         "are not part of this check); the gate is driven through ValidateSSVMessage (bare SSV message, pre-fork era); "
+         "known finding: a proposal stamped with the stale round of an adopted decided certificate is rejected as "
+         "'signer is not leader'.",
+    technique="TLA+ timely-class spec with the gate's reject rules as emitter-side invariants + TLC exhaustive check; "
+              "behaviours replayed on real controllers with a real peer validator on every broadcast",
+)
 CHECKS["C17"] = dict(
     category="model_checking",
     text="Timer.tla models RoundTimer at the grain of the code (atomic armed round, one waiter goroutine + timer per arming that "
